@@ -6,7 +6,9 @@ cd /repo || exit 2
 if [ -n "$(git status --porcelain --untracked-files=no)" ]; then echo "/repo is not clean"; exit 2; fi
 git apply --check "$D/patch.diff" || { echo "patch does not apply"; exit 2; }
 git apply "$D/patch.diff"
-trap 'git -C /repo checkout -- . ; git -C /repo clean -fdq -- src precompile common 2>/dev/null' EXIT
+# a change to the build-time generators or the book leaves its tables in our build directories: force a fresh draw afterwards
+redraw_after() { if grep -qE '^diff --git a/(precompile/|build\.rs|opening_lines\.txt)' "$D/patch.diff"; then (cd /verif/harness && cargo clean --release -p chess --offline >/dev/null 2>&1; cargo clean -p chess --offline --manifest-path /repo/Cargo.toml --target-dir /verif/target/cli >/dev/null 2>&1); fi; }
+trap 'git -C /repo checkout -- . ; git -C /repo clean -fdq -- src precompile common 2>/dev/null; redraw_after' EXIT
 cd /verif
 for id in "$@"; do
   rm -f /verif/replays/$id-*
